@@ -13,6 +13,8 @@ structure TkS where
   maxLive : Nat := 0
   /-- metadata kept only to answer queries -/
   decimals : Nat := 0
+  /-- the token id given at construction (hex, as written in the trace) -/
+  tid : String := ""
 
 structure StepOut where
   obs : String
@@ -46,7 +48,7 @@ def step (s : TkS) (t : List String) : TkS × StepOut :=
     match now.toNat?, seq.toNat? with
     | some n, some q => ({ s with now := n, seq := q }, ⟨"ok", "ok"⟩)
     | _, _ => bad s "time"
-  | ["tk.new", _addr, owner, minter, _tid, name, symbol, decimals, maxlive] =>
+  | ["tk.new", _addr, owner, minter, tid, name, symbol, decimals, maxlive] =>
     match parseAddr owner, ofHex name, ofHex symbol, decimals.toNat?, maxlive.toNat? with
     | some ow, some nm, some sy, some d, some ml =>
       let s := { s with maxLive := ml }
@@ -56,7 +58,7 @@ def step (s : TkS) (t : List String) : TkS × StepOut :=
       | some m =>
         -- validate_token_metadata: decimals <= 255, non-empty name and symbol
         if d > 255 ∨ nm.isEmpty ∨ sy.isEmpty then ({ s with st := none }, ⟨"err", "InvalidMetadata"⟩)
-        else ({ s with st := some (construct ow m), decimals := d }, ⟨"ok", "ok"⟩)
+        else ({ s with st := some (construct ow m), decimals := d, tid := tid }, ⟨"ok", "ok"⟩)
     | _, _, _, _, _ => bad s "tk.new"
   | ["tk.maxlive"] => (s, ⟨"ok u" ++ toString s.maxLive, "ok"⟩)
   | op :: args =>
@@ -116,6 +118,7 @@ def step (s : TkS) (t : List String) : TkS × StepOut :=
         match parseAddr f, parseAddr sp with
         | some f, some sp => (s, ⟨"ok X" ++ toString (readAllowance st s.seq f sp).amount, "ok"⟩)
         | _, _ => bad s op
+      | "tk.token_id", [] => (s, ⟨"ok x" ++ s.tid, "ok"⟩)        -- `token_id()` reports the id given at construction, always
       | "tk.owner", [] => (s, ⟨"ok " ++ addrTok st.owner, "ok"⟩)
       | "tk.admin", [] => (s, ⟨"ok " ++ addrTok st.owner, "ok"⟩)
       | "tk.is_minter", [a] =>
